@@ -345,6 +345,10 @@ func (p *Program) Build(extra ...func(*rux.Router)) *rux.Router {
 						route = r.Add(x.Path, main, x.Method).Use(mws...)
 					}
 				}
+				if strings.HasSuffix(x.Name, "1") || strings.HasSuffix(x.Name, "4") {
+					// the documented chaining idiom, inside whatever group is being defined right now
+					route.NamedTo("named-"+x.Name, r)
+				}
 				x.route = route
 				x.pathAtReg = route.Path()
 				x.handlersAtReg = len(route.Handlers())
